@@ -405,6 +405,7 @@ fn run_seq_inner(case: &SeqCase, opts: Opts) -> RunResult {
 	if !all_joined {
 		// some thread may still reference the arena: leak it
 		std::mem::forget(env);
+		crate::quarantine::abandon_region();
 	}
 	r
 }
@@ -546,6 +547,7 @@ pub fn run_conc(case: &ConcCase, opts: Opts) -> RunResult {
 	r.final_table_free = free;
 	if !all_joined {
 		std::mem::forget(env);
+		crate::quarantine::abandon_region();
 	}
 	r
 }
